@@ -117,3 +117,20 @@ package threshold
 //@   props C02 C03 C10
 //@   ghost-param now int
 //@   requires m != nil && from != r.Receiver.SelfID && from in r.Receiver.P && now > r.Receiver.gNow
+
+//@ func (*embeddedBoxWithScheme).HandleMessage
+//@   props C10
+//@   requires msg != nil
+
+// The two closures that hand broadcast output to the MPC back end. Their precondition on m is what rbc proves at
+// its hand-over event (C03: non-nil, the object received directly) plus what handleRBC/handleAck construct
+// (always a *rbcMsg); it is an entry assumption here because rbc treats the message as an opaque interface.
+//@ func (*Scheme).runDKG$1$2
+//@   props C10 C06
+//@   requires s != nil && membership != nil && dkgProtocolInstance != nil
+//@   requires typeIs(m, "*rbcMsg") && dyn(m, "*rbcMsg") != nil
+//@
+//@ func (*Scheme).prepareSigning$2
+//@   props C10 C06
+//@   requires s != nil && signingProtocol != nil
+//@   requires typeIs(m, "*rbcMsg") && dyn(m, "*rbcMsg") != nil
